@@ -676,6 +676,9 @@ def check(run):
                 mlines.append(mc[0])
                 mexpect.append(("mop", ev["op"], cur, part, mc[1], None))
                 ndel += 1
+            if D.encodable(cur):
+                mlines.append("CHK %d 40 ST %s" % (lag, D.encode_state(cur)))
+                mexpect.append(("chk", D.consistent_py(tabs, cur), cur, part, None, None))
             bad = D.monitor(tabs, cur) + D.monitor_links(cur)
             need = D.need_counts(tabs, cur)
             leak = sum(1 for oi, ob in enumerate(cur["objs"]) for g, f in enumerate(ob["fs"]) if f[2] > need[oi][g])
@@ -725,6 +728,13 @@ def check(run):
     if len(mout) != len(mlines):
         run.mismatch("primitive:model-run", {"n": len(mlines)}, "%d cases" % len(mlines), "%d answers (rc=%d) %s" % (len(mout), rc, e[-300:]))
     for ml, mo, ex in zip(mlines, mout, mexpect):
+        if ex[0] == "chk":
+            _, pyverdict, cur, part, _, _ = ex
+            run.count(ml, True)
+            run.dist("model:consistent_check=" + mo.strip())
+            if mo.strip() != ("1" if pyverdict else "0"):
+                run.mismatch("consistent_check", {"scenario": scenario(part), "model_case": ml}, "python monitor: %s" % pyverdict, mo[:50])
+            continue
         if ex[0] == "mop":
             _, evop, cur, part, with_fs, _ = ex
             run.count(ml, True)
